@@ -1,2 +1,17 @@
-(* C01 -- generic round trip.  Theorems are added here as they are proved. *)
-From PJ.Model Require Import Base.
+(* C01 -- property theorems; see DESIGN.md section 6.  Grows as proofs are completed. *)
+From PJ.Model Require Import Base Lookup Terms Encoder Api.
+From PJ.Proofs Require Import Mirror MirrorRun EncoderProofs.
+
+(* The split of an IRI into prefix and name loses nothing (what the reader concatenates is the IRI). *)
+Theorem C01_split_iri_lossless : forall iri : str, let '(p, n) := split_iri iri in p ++ n = iri.
+Proof. exact split_iri_app. Qed.
+Print Assumptions C01_split_iri_lossless.
+
+(* Every index the writer emits for a key resolves on the reader to that key, for every history
+   of hits, misses and evictions of each table (the lookup core of the round trip; see C05). *)
+Theorem C01_lookup_indices_resolve :
+  forall (rule : lk_rule) (size : N) (keys : list str),
+    1 <= size ->
+    Forall2 (fun k o => exists obs, o = Some obs /\ obs_ok size k obs) keys (api_lookup rule size keys).
+Proof. exact api_lookup_ok. Qed.
+Print Assumptions C01_lookup_indices_resolve.
